@@ -882,7 +882,10 @@ func (conn *liveConn) SetReadDeadline(deadline time.Time) error {
 }
 
 func (conn *liveConn) SetWriteDeadline(deadline time.Time) error {
-	panic("not supported")
+	if nc, ok := conn.rwc.(net.Conn); ok {
+		return nc.SetWriteDeadline(deadline)
+	}
+	return errors.New("not supported")
 }
 
 func (s *Server) watchAutoGC(wg *sync.WaitGroup) {
